@@ -45,6 +45,10 @@ BASE = [
     (C('app', L(), Y, Y), None),
     (C('app', L(H_, tail=T_), Y, L(H_, tail=Z)), gc('app', T_, Y, Z)),
     (C('eq', X, X), None),
+    # facts whose variables stay unbound inside a compound term / list, duplicate facts, a fact followed by a rule for the same goal
+    (C('h', C('box', Z)), None), (C('h', L(Z, tail=W)), None),
+    (C('d', A('a')), None), (C('d', A('a')), None), (C('d', A('b')), None), (C('d', X), gc('q', X)),
+    (C('pr', X, Y, C('k', Y, X)), None),
 ]
 
 
